@@ -486,6 +486,14 @@ class FaceVariable:
                                 np.logical_or(self._yvalue, other),
                                 np.logical_or(self._zvalue, other))
 
+    def __rand__(self, other):
+        # logical 'and' is commutative (scalar on the left)
+        return self.__and__(other)
+
+    def __ror__(self, other):
+        # logical 'or' is commutative (scalar on the left)
+        return self.__or__(other)
+
     def __abs__(self):
         return FaceVariable(self.domain, np.abs(self._xvalue),
                             np.abs(self._yvalue),
